@@ -165,6 +165,8 @@ var fileKinds = []struct{ kind, content string }{
 	{"derived:canonical-crlf", "select a,b from t where a=1 and b in (1,2)"},
 	{"derived:canonical-crlf", "insert into t (a, b) values (1, 'x')"},
 	{"derived:canonical-trailing-newline", "select a from t order by a"},
+	{"comment-only", "-- just a comment, no statement\n"},
+	{"comment-only", "/* a block comment */\n\n-- and a line comment"},
 	{"with-comments", "-- leading\nselect a, /* mid */ b from t -- trailing\nwhere a = 1;\n"},
 }
 
@@ -188,11 +190,17 @@ func genScenario(src *tape.Source) *scenario {
 	case 0:
 		sc.Cmd = "format"
 		sc.Args = []string{"format"}
-		mode := src.Intn(4, "c19.fmode")
-		if input >= 6 && mode == 1 {
+		mode := src.Intn(6, "c19.fmode")
+		if input >= 6 && (mode == 1 || mode >= 4) {
 			mode = 0
 		}
 		switch mode {
+		case 4: // --check together with -i: check-only wins, nothing may be written
+			sc.Check = true
+			sc.Args = append(sc.Args, "--check", "-i")
+		case 5:
+			sc.Check = true
+			sc.Args = append(sc.Args, "-i", "--check")
 		case 1:
 			sc.InPlace = true
 			sc.Args = append(sc.Args, "-i")
